@@ -96,6 +96,21 @@ type expSession struct {
 	// pending write fault for the next write of the application task (op "wfault")
 	wfKind, wfBytes int
 	wfFired         int
+	// slow collector
+	t0           time.Time
+	stallUntil   time.Time
+	stallForever bool
+	peerGone     chan struct{}
+	// Write calls on the exporter's stream socket: when each was invoked and the message header it carried
+	writeCalls []writeCall
+	send2Ch    chan send2Req
+	// C01: called when the application reaches a "cstall" op
+	onConsumerStall func(d time.Duration)
+}
+
+type writeCall struct {
+	At  time.Time
+	Hdr [16]byte
 }
 
 type seqMark struct {
@@ -129,7 +144,7 @@ func newExpSession(env *Env) (*expSession, error) { return newExpSessionOpts(env
 
 func newExpSessionOpts(env *Env, o expOpts) (*expSession, error) {
 	pl := env.Plan
-	s := &expSession{env: env, tmpls: map[int]*tmplInfo{}, inCall: -1}
+	s := &expSession{env: env, tmpls: map[int]*tmplInfo{}, inCall: -1, t0: time.Now(), peerGone: make(chan struct{})}
 	s.proto = "tcp"
 	if cfgOr(pl, "proto", 0) == 1 {
 		s.proto = "udp"
@@ -146,6 +161,15 @@ func newExpSessionOpts(env *Env, o expOpts) (*expSession, error) {
 		// taps see plaintext only; with TLS/DTLS the wire carries ciphertext
 		env.Net.OnConnect = func(cl, sv *simnet.Conn) {
 			cl.Tap = func(p []byte) { s.tap(p) }
+			cl.OnWrite = func(p []byte) {
+				if len(p) >= 16 {
+					wc := writeCall{At: time.Now()}
+					copy(wc.Hdr[:], p[:16])
+					s.mu.Lock()
+					s.writeCalls = append(s.writeCalls, wc)
+					s.mu.Unlock()
+				}
+			}
 			cl.Hook = func(_ *simnet.Conn, p []byte) simnet.WritePlan {
 				if s.wfKind == 0 || simrt.GoID() != s.appGID {
 					return simnet.WritePlan{Accept: -1}
@@ -261,17 +285,11 @@ func (s *expSession) send(c callRec) {
 }
 
 // startPeer runs a slow collector: it accepts the exporter's connection with a bounded receive
-// window and reads it, except during the stall periods of the plan (ops {K:"peerstall", A:at ms,
-// B:duration ms}), so that the exporter's writes block.
+// window and reads it, except during the stall periods of the plan, so that the exporter's writes
+// block. Stalls are either placed in time (ops {K:"peerstall", A:at ms, B:duration ms}) or in the
+// application's history (op {K:"stallnow", B:duration ms, <0: for good}: from the moment the
+// application reaches the op).
 func (s *expSession) startPeer() {
-	type stall struct{ from, to time.Time }
-	var stalls []stall
-	t0 := time.Now()
-	for _, op := range s.env.Plan.Ops {
-		if op.K == "peerstall" {
-			stalls = append(stalls, stall{t0.Add(time.Duration(op.A) * time.Millisecond), t0.Add(time.Duration(op.A+op.B) * time.Millisecond)})
-		}
-	}
 	s.env.Go("slow-peer", func() {
 		var c net.Conn
 		var err error
@@ -279,32 +297,141 @@ func (s *expSession) startPeer() {
 		if err != nil {
 			return
 		}
-		c.(*simnet.Conn).SetWindow(s.window)
-		buf := make([]byte, 8192)
+		s.servePeer(c)
+	})
+}
+
+// servePeer is the slow collector's read loop on an accepted connection.
+func (s *expSession) servePeer(c net.Conn) {
+	type stall struct{ from, to time.Time }
+	var stalls []stall
+	t0 := s.t0
+	for _, op := range s.env.Plan.Ops {
+		if op.K == "peerstall" {
+			stalls = append(stalls, stall{t0.Add(time.Duration(op.A) * time.Millisecond), t0.Add(time.Duration(op.A+op.B) * time.Millisecond)})
+		}
+	}
+	c.(*simnet.Conn).SetWindow(s.window)
+	buf := make([]byte, 8192)
+	var err error
+	for {
+		now := time.Now()
+		for _, st := range stalls {
+			if !now.Before(st.from) && now.Before(st.to) {
+				s.env.Count("fault.peer_stall", 1)
+				s.env.Sleep(st.to.Sub(now))
+				now = time.Now()
+			}
+		}
+		s.mu.Lock()
+		until, forever := s.stallUntil, s.stallForever
+		s.mu.Unlock()
+		if forever {
+			// the collector never reads again; it goes away when its connection is torn down
+			s.env.Count("fault.peer_stall_for_good", 1)
+			Block("peer-stalled", func() { <-s.peerGone })
+			c.Close()
+			return
+		}
+		if until.After(now) {
+			s.env.Count("fault.peer_stall", 1)
+			s.env.Sleep(until.Sub(now))
+		}
+		c.SetReadDeadline(time.Now().Add(50 * time.Millisecond))
+		Block("peer-read", func() { _, err = c.Read(buf) })
+		if err != nil && !isTimeout(err) {
+			c.Close()
+			return
+		}
+		s.mu.Lock()
+		closed := s.closed
+		s.mu.Unlock()
+		if closed && err != nil {
+			c.Close()
+			return
+		}
+	}
+}
+
+// Second sender: another goroutine of the application that shares the exporting process. It has
+// its own set and its own template ids (slots 50+); the application task triggers it with op
+// {K:"send2", A:delay ms, B:records (0: announce a new template), C:value seed, N:element keys}.
+type send2Req struct {
+	op plan.Op
+}
+
+func (s *expSession) startSecondSender() {
+	s.send2Ch = make(chan send2Req, 64)
+	s.env.Go("app2", func() {
+		set := entities.NewSet(false)
+		var mine []*tmplInfo
 		for {
-			now := time.Now()
-			for _, st := range stalls {
-				if !now.Before(st.from) && now.Before(st.to) {
-					s.env.Count("fault.peer_stall", 1)
-					s.env.Sleep(st.to.Sub(now))
-					now = time.Now()
+			var rq send2Req
+			var ok bool
+			Block("app2-wait", func() { rq, ok = <-s.send2Ch })
+			if !ok {
+				return
+			}
+			op := rq.op
+			if op.A > 0 {
+				s.env.Sleep(time.Duration(op.A) * time.Millisecond)
+			}
+			if op.B == 0 || len(mine) == 0 {
+				var specs []elemSpec
+				for _, k := range op.N {
+					if sp, ok := specFromKey(k); ok {
+						specs = append(specs, sp)
+					}
 				}
+				if len(specs) == 0 || len(mine) >= 6 {
+					continue
+				}
+				slot := 50 + len(mine)
+				id := uint16(256 + slot)
+				elems := make([]entities.InfoElementWithValue, 0, len(specs))
+				for _, sp := range specs {
+					ie, err := registry.GetInfoElement(sp.Name, sp.Ent)
+					if err != nil {
+						panic(err)
+					}
+					el, err := entities.DecodeAndCreateInfoElementWithValue(ie, nil)
+					if err != nil {
+						panic(err)
+					}
+					elems = append(elems, el)
+				}
+				set.ResetSet()
+				set.PrepareSet(entities.Template, id)
+				set.AddRecord(elems, id)
+				ti := &tmplInfo{ID: id, Specs: specs}
+				s.mu.Lock()
+				s.tmpls[slot] = ti
+				s.mu.Unlock()
+				_, err := s.ep.SendSet(set)
+				s.env.Count("c08.second_sender_sends", 1)
+				if err == nil {
+					ti.Sent = true
+					mine = append(mine, ti)
+				}
+				continue
 			}
-			c.SetReadDeadline(time.Now().Add(50 * time.Millisecond))
-			var n int
-			Block("peer-read", func() { n, err = c.Read(buf) })
-			_ = n
-			if err != nil && !isTimeout(err) {
-				c.Close()
-				return
+			ti := mine[int(op.C>>8)%len(mine)]
+			r := rand.New(rand.NewPCG(uint64(op.C), 0xda7c))
+			set.ResetSet()
+			set.PrepareSet(entities.Data, ti.ID)
+			for rec := int64(0); rec < op.B; rec++ {
+				elems := make([]entities.InfoElementWithValue, len(ti.Specs))
+				for k, sp := range ti.Specs {
+					e, err := registry.GetInfoElement(sp.Name, sp.Ent)
+					if err != nil {
+						panic(err)
+					}
+					elems[k] = mkElement(sp, e, genWire(r, sp, 16))
+				}
+				set.AddRecord(elems, ti.ID)
 			}
-			s.mu.Lock()
-			closed := s.closed
-			s.mu.Unlock()
-			if closed && err != nil {
-				c.Close()
-				return
-			}
+			s.ep.SendSet(set)
+			s.env.Count("c08.second_sender_sends", 1)
 		}
 	})
 }
@@ -326,6 +453,26 @@ func (s *expSession) runOps1(i int, op plan.Op) {
 		s.send(callRec{Op: i, Kind: "undef", Slot: -1, Expect: "error", Why: "undefined set type"})
 	case "adv":
 		s.env.Sleep(time.Duration(op.A))
+	case "cstall":
+		// the application behind the collector stops consuming for B ms (the caller runs that consumer)
+		if s.onConsumerStall != nil {
+			s.onConsumerStall(time.Duration(op.B) * time.Millisecond)
+		}
+	case "send2":
+		if s.send2Ch != nil {
+			select {
+			case s.send2Ch <- send2Req{op}:
+			default:
+			}
+		}
+	case "stallnow":
+		s.mu.Lock()
+		if op.B < 0 {
+			s.stallForever = true
+		} else if t := time.Now().Add(time.Duration(op.B) * time.Millisecond); t.After(s.stallUntil) {
+			s.stallUntil = t
+		}
+		s.mu.Unlock()
 	case "wfault":
 		// the next write of the application fails: A=1 short write (B bytes accepted, no error),
 		// A=2 error after B bytes, A=3 error with nothing written
@@ -351,10 +498,17 @@ func (s *expSession) runOps(ops []plan.Op) {
 
 func (s *expSession) closeExporter() {
 	Block("close", func() { s.ep.CloseConnToCollector() })
+	s.noteClosed()
+}
+
+// noteClosed records that a CloseConnToCollector call has returned (a collector stalled for good
+// then sees its connection torn down and goes away).
+func (s *expSession) noteClosed() {
 	s.mu.Lock()
 	if !s.closed {
 		s.closed = true
 		s.closeAt = time.Now()
+		close(s.peerGone)
 	}
 	s.mu.Unlock()
 }
@@ -805,7 +959,7 @@ func (s *expSession) checkBookkeeping() {
 		}
 		n := 0
 		bytesW := 0
-		for i := c.W0; i < c.W1; i++ {
+		for i := range pw {
 			if pw[i].Call == ci {
 				n++
 				bytesW += len(pw[i].Bytes)
@@ -831,7 +985,32 @@ func (s *expSession) checkBookkeeping() {
 		if h.Domain != s.domain {
 			s.env.Violate("domain", "", "wire message %d carries observation domain %d, configured %d", i, h.Domain, s.domain)
 		}
-		// export time: within [call start, call end] for application messages; == tap time otherwise
+		// Export time. Stream transports: the moment the message was handed to the socket is known
+		// (writeCalls). A sender may have waited before that (for an earlier message to drain to a slow
+		// collector) and the first byte may have gone out later (full window): the export time is the
+		// second of sending - not older than the second before the hand-over (one second of slack for
+		// a stamp taken just before a second boundary) and not later than the first byte.
+		var best time.Time
+		if len(w.Bytes) >= 16 {
+			var hdr [16]byte
+			copy(hdr[:], w.Bytes[:16])
+			for _, wc := range s.writeCalls {
+				if wc.Hdr == hdr && !wc.At.After(w.At) {
+					best = wc.At // the latest hand-over of these header bytes not after the first byte went out
+				}
+			}
+		}
+		if !best.IsZero() {
+			if int64(h.ExportTime) < best.Unix()-1 {
+				s.env.Violate("export-time", "stale", "wire message %d (by %s) was handed to the socket at second %d but carries export time %d (%d s earlier): stamped before the sender waited its turn", i, w.By, best.Unix(), h.ExportTime, best.Unix()-int64(h.ExportTime))
+			} else if int64(h.ExportTime) > w.At.Unix() {
+				s.env.Violate("export-time", "", "wire message %d export time %d is after its first byte went out (second %d)", i, h.ExportTime, w.At.Unix())
+			}
+		}
+		if w.Call < 0 && !best.IsZero() {
+			continue
+		}
+		// within [call start, call end] for application messages; == tap time for background datagrams
 		lo, hi := w.At.Unix(), w.At.Unix()
 		if w.Call >= 0 {
 			lo, hi = s.calls[w.Call].T0.Unix(), s.calls[w.Call].T1.Unix()
@@ -850,6 +1029,19 @@ func (s *expSession) seqCheck() {
 	var cur uint32
 	marks := s.seqMarks
 	mi := 0
+	// "failed attempts are outside this statement": a data SendSet that returned an error may or may
+	// not have moved the counter by its record count. From the first message at or after such a call
+	// either base is accepted (once); after that the counter must again advance exactly.
+	type failed struct {
+		t0 time.Time
+		n  uint32
+	}
+	var pend []failed
+	for _, c := range s.calls {
+		if c.Err != nil && c.Kind == "data" && len(c.Records) > 0 {
+			pend = append(pend, failed{c.T0, uint32(len(c.Records))})
+		}
+	}
 	for i, w := range pw {
 		for mi < len(marks) && marks[mi].wireIdx <= i {
 			cur = marks[mi].val
@@ -858,12 +1050,39 @@ func (s *expSession) seqCheck() {
 		if w.Err != nil || len(w.Msg.Sets) != 1 {
 			continue
 		}
+		if len(pend) > 0 && !w.At.Before(pend[0].t0) {
+			own := uint32(0)
+			if w.Msg.Sets[0].ID != ipfixref.TemplateSetID && w.Call >= 0 {
+				own = uint32(len(s.calls[w.Call].Records))
+			}
+			sum := uint32(0)
+			active := 0
+			for k := 0; k < len(pend) && !w.At.Before(pend[k].t0); k++ {
+				active++
+				sum += pend[k].n
+				if w.Msg.Header.Sequence-own == cur+sum {
+					cur += sum
+					s.env.Count("probe.sequence_rebased_after_failed_attempt", 1)
+					break
+				}
+			}
+			pend = pend[active:] // accepted once: at the first message after the failed attempt(s)
+		}
 		set := w.Msg.Sets[0]
 		if set.ID != ipfixref.TemplateSetID {
 			// number of records: from the handing call when known, else from the reference decode
 			n := uint32(0)
 			if w.Call >= 0 {
 				n = uint32(len(s.calls[w.Call].Records))
+			} else {
+				// a second sender: count with the reference decoder under the template it announced
+				for _, t := range s.tmpls {
+					if t.ID == set.ID {
+						if recs, _, err := ipfixref.DecodeRecords(set.Body, fieldsOf(t.Specs)); err == nil {
+							n = uint32(len(recs))
+						}
+					}
+				}
 			}
 			cur += n
 		}
@@ -885,7 +1104,7 @@ func (s *expSession) checkNoInvalid() {
 	pw := s.parseWire()
 	for ci, c := range s.calls {
 		wrote := 0
-		for i := c.W0; i < c.W1; i++ {
+		for i := range pw {
 			if pw[i].Call == ci {
 				wrote += len(pw[i].Bytes)
 			}
